@@ -52,6 +52,8 @@ type Env struct {
 	// derefs: names that denote the contents of a cell (captured variables of a closure at a call
 	// site): read from whatever state the expression is evaluated in
 	derefs map[string]derefBinding
+	// callNames: callee parameter names bound at a call site; old(x) refers to the caller's own x
+	callNames []string
 }
 
 type derefBinding struct {
@@ -190,6 +192,18 @@ func (vc *VC) evalSpec(x SExpr, env *Env) (tv TV) {
 		c := env.withState(env.old)
 		if env.oldLookup != nil {
 			c.lookup = env.oldLookup
+		}
+		if len(env.callNames) > 0 {
+			// in a call-site assertion the callee's parameter names shadow the caller's variables;
+			// under old() the caller's entry values are meant
+			b2 := map[string]TV{}
+			for k, v := range c.bound {
+				b2[k] = v
+			}
+			for _, n := range env.callNames {
+				delete(b2, n)
+			}
+			c.bound = b2
 		}
 		return vc.evalSpec(x.X, c)
 	case *SIte:
